@@ -44,8 +44,10 @@ class Schedule:
                     job in submission order): enumerating the permutations
                     ``prio`` enumerates every admissible execution order
          'drawn'    ticks[i] = list of integers; each integer p runs the next
-                    job of the (p mod #busy workers)-th busy worker; ticks
-                    beyond the list run nothing (lazy)
+                    job of the (p mod #busy workers)-th busy worker counted
+                    from the highest rank (p = 0: the worker that usually
+                    holds the youngest job); ticks beyond the list run
+                    nothing (lazy)
     Per-worker FIFO order is kept by every kind (it is a property of MPI
     point-to-point messages, not of the schedule)."""
 
@@ -67,7 +69,7 @@ class Schedule:
                 busy = comm.busy()
                 if not busy:
                     return
-                comm.step(busy[int(p) % len(busy)])
+                comm.step(busy[(len(busy) - 1 - int(p)) % len(busy)])
             return
         if self.kind != "eager" and not is_recv:
             return
@@ -886,6 +888,8 @@ def network(draw, big_ok=True):
         lo, hi = {"small": (1, 10), "medium": (11, 60),
                   "big": (101, 125)}[cls]
         comps.append(draw(component(lo, hi)))
+    if sum(c[0] for c in comps) < 2:
+        comps = [(2, [[0, 1]])]     # Network needs N >= 2 (link density)
     n = sum(c[0] for c in comps)
     perm = draw(st.permutations(list(range(n))))
     edges = []
@@ -901,7 +905,11 @@ def network(draw, big_ok=True):
 def schedules():
     drawn = st.builds(
         lambda t: {"kind": "drawn", "ticks": t},
-        st.lists(st.lists(st.integers(0, 7), max_size=6), max_size=16))
+        # two ticks out of three run nothing, so that a backlog builds up
+        # which the third works off in a drawn order
+        st.lists(st.one_of(st.just([]), st.just([]),
+                           st.lists(st.integers(0, 7), max_size=8)),
+                 max_size=20))
     fixed = st.sampled_from(["eager", "lazy", "reverse"]).map(
         lambda k: {"kind": k})
     prio = st.permutations(list(range(6))).map(
@@ -919,15 +927,18 @@ def master_cases(draw):
         names = [m for m in names if MEASURES[m][0] != "nsi_arenas"] or \
             ["nsi_newman"]
     n = net["n"]
-    size = draw(st.one_of(st.integers(2, 5), st.integers(2, 9),
+    size = draw(st.one_of(st.sampled_from([2, 3, 3, 4, 4, 5, 6, 7, 8, 9]),
+                          st.sampled_from([2, 3, 3, 4, 4, 5, 6, 7, 8, 9]),
                           st.integers(2, n + 2)))
     case = dict(net)
     case.update({
         "measures": names, "size": size,
-        "silence": draw(st.sampled_from([0, 0, 1, 2, 3])),
+        # more weight on level 0 for Arenas: levels >= 1 lie behind KF-C19-1
+        "silence": draw(st.sampled_from([0, 0, 0, 0, 0, 1, 2, 3] if heavy
+                                        else [0, 0, 1, 2, 3])),
         "schedule": draw(schedules()),
         "serve": draw(st.booleans()),
-        "verbose": draw(st.integers(0, 5)) == 0,
+        "verbose": draw(st.integers(0, 5)) == 5,
     })
     return case
 
